@@ -150,7 +150,10 @@ func (te *tableEngine) openGame(oldTable *Table) (*Table, error) {
 
 func (te *tableEngine) startGame() error {
 	rule := te.table.Meta.Rule
-	blind := te.table.State.BlindState
+
+	// the blinds in force now are the blinds of this hand: take a copy, BlindState
+	// itself can be updated at any time (UpdateBlind)
+	blind := *te.table.State.BlindState
 
 	// create game options
 	opts := pokerface.NewStardardGameOptions()
@@ -222,12 +225,8 @@ func (te *tableEngine) startGame() error {
 		te.table.State.CurrentActionEndAt = 0
 	})
 
-	// start game
-	if _, err := te.game.Start(); err != nil {
-		return err
-	}
-
-	te.table.State.Status = TableStateStatus_TableGamePlaying
+	// the blind level this hand is played at: fixed before the hand starts, so that
+	// a blind update arriving while the first snapshot is already out cannot leak in
 	te.table.State.GameBlindState = &TableBlindState{
 		Level:  blind.Level,
 		Ante:   blind.Ante,
@@ -235,6 +234,13 @@ func (te *tableEngine) startGame() error {
 		SB:     blind.SB,
 		BB:     blind.BB,
 	}
+
+	// start game
+	if _, err := te.game.Start(); err != nil {
+		return err
+	}
+
+	te.table.State.Status = TableStateStatus_TableGamePlaying
 	return nil
 }
 
